@@ -23,6 +23,7 @@
                           has no path-independent meaning; optimality is stated for dist_free
                           condition lists. *)
 From Agdb Require Import Bytes DbValue Graph DbModel Search Revisions AdjOk PathProofs.
+From Agdb Require GraphSim AdjOkWf.
 Open Scope Z_scope.
 
 (* ---- the vocabulary means what it says ---- *)
@@ -238,3 +239,17 @@ Example C17_degenerate_examples :
   path_search rv_fixed dbg [] 9 1 = Some [].
 Proof. exact ex_degenerate. Qed.
 Print Assumptions C17_degenerate_examples.
+
+(* ---- the hypothesis adj_ok is discharged by the graph invariant (AdjOkWf.v): wf holds after
+   every history of graph operations from the empty graph (GraphSpec.grun_wf) ---- *)
+Theorem C17_path_search_wf : forall rv d conds o dst,
+  GraphSim.wf (gr d) -> dist_free conds = true ->
+  node_id (gr d) o = true -> node_id (gr d) dst = true -> o <> dst ->
+  exists r, path_search rv d conds o dst = Some r /\
+    ((r = [] /\ forall q, is_path (gr d) o dst q -> ~ usable_path rv d conds q) \/
+     (exists p, is_path (gr d) o dst p /\ usable_path rv d conds p /\
+                r = filter (esel rv d conds) p /\
+                forall q, is_path (gr d) o dst q -> usable_path rv d conds q ->
+                          cost rv d conds p <= cost rv d conds q)).
+Proof. exact AdjOkWf.path_search_total_wf. Qed.
+Print Assumptions C17_path_search_wf.
